@@ -98,6 +98,9 @@ class Underlying(abc.ABC):
         """update the underlying given the process representation type"""
         if process_representation == ProcessRepresentation.LOG:
             self.value = self._value_log
+        else:
+            # back to the identity representation: remove the instance attribute which shadows the method
+            self.__dict__.pop("value", None)
 
     def imply_from_payoff_underlying(self, payoff_underlying_type) -> Callable:
         """
